@@ -38,8 +38,8 @@ func c01(r *ev.Run, replay string) {
 			}
 		}
 	}
-	n := r.N(300, 400)
-	shards := r.N(6, 16)
+	n := r.N(300, 600)
+	shards := r.N(6, 48)
 	var wg sync.WaitGroup
 	sem := make(chan struct{}, 16)
 	for _, sg := range gen.OrderSystems() {
